@@ -119,22 +119,33 @@ def field_witness(cls_name, field):
     from harness.c22_oracle import seeded_problem, snapshot, same, run_pair
     import random
     base = cls_name.split(".")[0]
-    if base not in ("Problem", "ContingentProblem", "HierarchicalProblem", "MultiAgentProblem", "SchedulingProblem"):
-        return False, "no problem-level witness builder for class %s" % cls_name, {}
-    p = seeded_problem(base)
+    # objects owned by a problem: look at them inside a seeded problem that contains one
+    owner = {"InstantaneousAction": "Problem", "DurativeAction": "Problem", "SensingAction": "ContingentProblem",
+             "Agent": "MultiAgentProblem"}.get(base, base)
+    if owner not in ("Problem", "ContingentProblem", "HierarchicalProblem", "MultiAgentProblem", "SchedulingProblem"):
+        return False, "no witness builder for class %s" % cls_name, {}
+    p = seeded_problem(owner)
     c = p.clone()
-    holder_p, holder_c = p, c
-    if "." in cls_name:
-        holder_p, holder_c = getattr(p, cls_name.split(".")[1]), getattr(c, cls_name.split(".")[1])
+
+    def holders(q):
+        if "." in cls_name:
+            return [getattr(q, cls_name.split(".")[1])]
+        if owner == base:
+            return [q]
+        objs = list(q.agents) if base == "Agent" else list(q.actions)
+        return [o for o in objs if type(o).__name__ == base]
     try:
-        differs = snapshot(getattr(holder_p, field)) != snapshot(getattr(holder_c, field))
+        differs = any(snapshot(getattr(hp, field)) != snapshot(getattr(hc, field))
+                      for hp, hc in zip(holders(p), holders(c)))
+        holder_p, holder_c = (holders(p) + [p])[0], (holders(c) + [c])[0]
     except AttributeError:
         return False, "attribute %s not found on a %s instance" % (field, cls_name), {}
+    base = owner
     ws = same(p, c)
     payload = {"class": cls_name, "field": field, "original": repr(snapshot(getattr(holder_p, field)))[:400],
                "clone": repr(snapshot(getattr(holder_c, field)))[:400], "static_discrepancies": ws}
     if ws:
-        return True, "%s.%s is not cloned: seeded %s problem and its clone: %s" % (cls_name, field, base, "; ".join(ws)), payload
+        return True, "%s.%s is not (fully) cloned: seeded %s problem and its clone: %s" % (cls_name, field, base, "; ".join(ws)), payload
     # equal by == : look for divergent behaviour under edits
     for seed in range(25):
         tr, _, _ = run_pair("witness", seeded_problem(base), random.Random(seed), 30, 6)
@@ -143,11 +154,11 @@ def field_witness(cls_name, field):
         if tr.violations:
             payload["divergence"] = tr.violations[:2]
             payload["last_step"] = tr.steps[-1] if tr.steps else None
-            return True, "%s.%s is not cloned: divergent behaviour: %s" % (cls_name, field, tr.violations[0][1]), payload
+            return True, "%s.%s is not (fully) cloned: divergent behaviour: %s" % (cls_name, field, tr.violations[0][1]), payload
     if differs:
         return True, "%s.%s is not cloned: the attribute differs between a seeded %s problem and its clone" % (
             cls_name, field, base), payload
-    return False, "%s.%s is not written by clone() but no behavioural difference was found" % (cls_name, field), payload
+    return False, "%s.%s: the clone() table is violated but no behavioural difference was found" % (cls_name, field), payload
 
 
 def uncovered_fields():
@@ -162,7 +173,11 @@ def uncovered_fields():
         if cf in cloned:
             return True
         return any((cl, at) == cf and (req == "" or (cl, req) in ctor) for cl, at, req in imm)
-    return [cf for cf in allf if not covered(cf)], len(allf)
+    copy, required, accepted = m.depth_tables(allf, cloned)
+    depth = {(c, a): d for c, a, d in copy}
+    shallow = [(c, a, "copied %d level(s) deep, declared %d" % (depth.get((c, a), 0), d)) for c, a, d in required
+               if (c, a) in cloned and (c, a) not in accepted and depth.get((c, a), 0) < d]
+    return [(c, a, "not written by clone()") for (c, a) in allf if not covered((c, a))] + shallow, len(allf)
 
 
 def known_scenarios():
@@ -232,12 +247,13 @@ def run(ctx):
         except Exception as e:
             unc = []
             ctx.fail("translator", "cannot re-read the translator tables: %r" % (e,), ["translator"], {}, False)
-        for cls_name, field in unc:
+        for cls_name, field, why in unc:
             pf, what, payload = field_witness(cls_name, field)
             found_witness = found_witness or pf
-            payload["theorem_or_corr"] = "theorem:C22_clone_copies_every_field"
-            ctx.fail("oracle" if pf else "translator", what, ["field-not-cloned", "class:" + cls_name, "field:" + field],
-                     payload, pf)
+            payload["table"] = why
+            payload["theorem_or_corr"] = "theorem:C22_clone_copies_every_field / C22_nested_fields_copied_deeply"
+            ctx.fail("oracle" if pf else "translator", "%s (%s)" % (what, why),
+                     ["field-not-cloned", "class:" + cls_name, "field:" + field], payload, pf)
 
     # 2b. the two open findings, replayed deterministically (they are also met at random below)
     for what, tags, payload in known_scenarios():
